@@ -1274,8 +1274,12 @@ def _fd_update_root(
   )
 
   val = packed_precond
+  # A non-finite sketch (e.g. after a NaN/Inf gradient) must not pass the
+  # acceptance gate: report a NaN error so the previous sketch is kept.
+  fd_error = jnp.where(
+      jnp.all(jnp.isfinite(packed_precond)), 0.0, jnp.nan).astype(jnp.float32)
   error_metrics = default_training_metrics(generate_fd_metrics).replace(
-      inverse_pth_root_errors=jnp.array(0.0, jnp.float32))
+      inverse_pth_root_errors=fd_error)
   if generate_training_metrics and generate_fd_metrics:
     error_metrics = error_metrics.replace(
         fd=FDDiagnostics.create(  # pytype: disable=wrong-arg-types  # jax-ndarray
